@@ -200,7 +200,7 @@ def vol_accounting(F, S):
     pad_ok = False
     for c in wcalls:
         if len(c.get("args", [])) == 2:
-            t = wf.term(c["args"][1])
+            t = wf.xterm(c["args"][1])
             if t[0] == "op" and t[1] == "&" and t[3] == ("const", 3) and t[2][0] == "un" and t[2][1] == "-" and "fileSize" in repr(t[2][2]):
                 pad_ok = True
     if good and pad_ok:
